@@ -10,7 +10,7 @@ def _tid(pair):
 def _record(task):
     text, ctor, run = task
     lib = C._import_lib()
-    from simple_ddl_parser import _verif
+    _verif = C.hooks()
     ev = []
     _verif.sink = ev.append
     try:
